@@ -23,6 +23,7 @@ type gemmInst struct {
 	a, b, c      []float64 // float32 instances hold float32-representable values
 	exact        bool      // small integers: every product and sum is exact
 	parallel     bool
+	nanC         bool
 	rowsA, colsA int
 	rowsB, colsB int
 }
@@ -103,7 +104,21 @@ func drawGemm(t *simrt.Tape) *gemmInst {
 	}
 	g.a = fill(g.rowsA, g.lda)
 	g.b = fill(g.rowsB, g.ldb)
-	g.c = fill(g.m, g.ldc)
+	g.c = fill(g.m+2, g.ldc) // two rows beyond the m x n window: must stay untouched
+	if g.beta == 0 && t.Choose(simrt.KWorkload, 2) == 1 {
+		// with beta == 0 C is an output only: what it holds on entry, NaN and
+		// Inf included, must not reach the result
+		for i := 0; i < g.m; i++ {
+			for j := 0; j < g.n; j++ {
+				if (i+j)%3 == 0 {
+					g.c[i*g.ldc+j] = math.NaN()
+				} else if (i+j)%7 == 0 {
+					g.c[i*g.ldc+j] = math.Inf(1)
+				}
+			}
+		}
+		g.nanC = true
+	}
 	return g
 }
 
@@ -162,7 +177,7 @@ func runGemm(t *simrt.Tape, rc *RunCtx) *Violation {
 	rc.Instance["alpha_beta"] = fmt.Sprintf("%v %v", g.alpha, g.beta)
 	rc.Instance["exact_integers"] = g.exact
 	rc.Instance["blocks"] = gemmBlocks(g.m) * gemmBlocks(g.n)
-	rc.declare("parallel_path", "serial_control_group", "gomaxprocs_below_blocks", "worker_limit_blocked", "block_goroutines_live>=4")
+	rc.declare("beta_zero_with_nan_in_C", "parallel_path", "serial_control_group", "gomaxprocs_below_blocks", "worker_limit_blocked", "block_goroutines_live>=4")
 	a0 := append([]float64(nil), g.a...)
 	b0 := append([]float64(nil), g.b...)
 	c0 := append([]float64(nil), g.c...)
@@ -215,12 +230,18 @@ func runGemm(t *simrt.Tape, rc *RunCtx) *Violation {
 			return &Violation{prop, "gemm/operand-modified", fmt.Sprintf("%s modified B[%d]", kind, i)}
 		}
 	}
-	for i := 0; i < g.m; i++ {
-		for j := g.n; j < g.ldc; j++ {
+	for i := 0; i < g.m+2; i++ {
+		for j := 0; j < g.ldc; j++ {
+			if i < g.m && j < g.n {
+				continue
+			}
 			if idx := i*g.ldc + j; idx < len(cTest) && math.Float64bits(cTest[idx]) != math.Float64bits(c0[idx]) {
-				return &Violation{prop, "gemm/padding-modified", fmt.Sprintf("%s wrote the padding column C[%d,%d]", kind, i, j)}
+				return &Violation{prop, "gemm/padding-modified", fmt.Sprintf("%s wrote outside the %dx%d window of C: element [%d,%d] (ldc=%d)", kind, g.m, g.n, i, j, g.ldc)}
 			}
 		}
+	}
+	if g.nanC {
+		rc.probe("beta_zero_with_nan_in_C", 1)
 	}
 	// (c) anchor against the definition
 	rc.oracle("definition")
@@ -247,7 +268,11 @@ func runGemm(t *simrt.Tape, rc *RunCtx) *Violation {
 				}
 				continue
 			}
-			tol := float64(g.k+3) * u * (math.Abs(g.alpha)*abs + math.Abs(g.beta*c0[i*g.ldc+j])) * 2
+			cterm := 0.0
+			if g.beta != 0 {
+				cterm = math.Abs(g.beta * c0[i*g.ldc+j])
+			}
+			tol := float64(g.k+3) * u * (math.Abs(g.alpha)*abs + cterm) * 2
 			if !(math.Abs(got-want) <= tol) {
 				return &Violation{prop, "gemm/definition", fmt.Sprintf("%s %v: C[%d,%d] = %v, definition gives %v (difference %g > bound %g)", kind, rc.Instance["shape"], i, j, got, want, math.Abs(got-want), tol)}
 			}
